@@ -47,6 +47,7 @@ type StoppableSource struct {
 	handler    handler.EventHandler
 	predicates []predicate.Predicate
 
+	inf cache.Informer
 	reg kcache.ResourceEventHandlerRegistration
 }
 
@@ -62,9 +63,17 @@ func (s *StoppableSource) Start(ctx context.Context, q workqueue.TypedRateLimiti
 	if err != nil {
 		return errors.Wrapf(err, "cannot add event handler")
 	}
+	s.inf = i
 	s.reg = reg
 
 	return nil
+}
+
+// Lost returns true if the informer this source was started with has been
+// stopped, e.g. because it was removed from the cache. A stopped informer
+// doesn't deliver events to the source's event handler anymore.
+func (s *StoppableSource) Lost() bool {
+	return s.inf != nil && s.inf.IsStopped()
 }
 
 // Stop removes the EventHandler from the source's Informer. The Informer will
